@@ -9,6 +9,7 @@ Monitors (all on the real generate_derivative_operators / calculate_admt):
            the boundary every discrete ingredient is exact, so L f must equal the analytic
            sqrt(dx dy) [div(D grad f) + (1/R)(D_xx f_x + D_xy f_y)], D = Dpar b b^T + Dperp n n^T.
 """
+import copy
 import numpy as np
 
 ID = "C20"
@@ -33,7 +34,7 @@ QUICK = dict(cases=400, workers=2, timecap=60)
 THOROUGH = dict(cases=40000, workers=16, timecap=600)
 REQUIRED = {"const": 1000, "linear": 1000, "bilinear": 500, "quadratic": 200, "admt_finite": 50, "admt_const": 50,
             "admt_iso": 50, "admt_analytic": 50, "admt_scale": 100, "sibling": 300,
-            "vertex_order_uniform": 25, "vertex_order_mixed": 15, "large_grid": 2, "row_numbering": 25, "opdict_reordered": 25}
+            "vertex_order_uniform": 25, "vertex_order_mixed": 15, "large_grid": 2, "row_numbering": 25, "opdict_reordered": 25, "inputs_untouched": 200, "anisotropy_per_voxel": 5}
 
 
 def gen_case(rng, tier):
@@ -88,6 +89,13 @@ def gen_case(rng, tier):
         case["psi"] = psi
         an = [1, 1.0, 10, float(10 ** rng.uniform(0, 4)), float(rng.uniform(1, 3))][int(rng.integers(5))]
         case["anisotropy"] = an
+        if rng.random() < 0.12:
+            # one factor per voxel: D_perp = 1/anisotropy = a0 + a1 u + a2 v with values in [0.02, 1]
+            lo = float(10 ** rng.uniform(-1.7, -0.3))
+            hi = float(rng.uniform(lo * 1.5, 1.0)) if lo * 1.5 < 1.0 else 1.0
+            th2 = rng.uniform(0, 2 * np.pi)
+            amp = 0.5 * (hi - lo) / (abs(np.cos(th2)) / 2 + abs(np.sin(th2)) / 2 + 1e-12) * 0.98
+            case["an_field"] = [float(0.5 * (hi + lo)), float(amp * np.cos(th2)), float(amp * np.sin(th2))]
         # the operator does not depend on the scale (units) of the flux map: drive tiny and huge flux values as well
         if rng.random() < 0.5:
             case["psi_scale"] = float(10 ** rng.uniform(-12, 8))
@@ -237,7 +245,13 @@ def run_case(case, ctx):
         ctx.mon("row_numbering")
     nx, ny, dx, dy = case["nx"], case["ny"], case["dx"], case["dy"]
     verts, m12, m21, x, y, ix, iy = build_grid(case)
+    verts_before = copy.deepcopy(verts)
+    maps_before = (dict(m12), dict(m21))
     ops = generate_derivative_operators(verts, m12, m21)
+    same = np.array_equal(np.asarray(verts), np.asarray(verts_before)) and type(verts) is type(verts_before)
+    ctx.check(same and (dict(m12), dict(m21)) == maps_before, "inputs-modified:generate_derivative_operators",
+              "generate_derivative_operators modified the caller's vertex array or index maps", monitor="inputs_untouched",
+              container=type(verts).__name__)
     ctx.cls(case["kind"] + (":" + case["vertex_kind"] if case.get("vertex_kind") else "") + (":vorder-" + vo["mode"] if vo else "")
             + (":>1024-cells" if case.get("large") else "") + (":row-numbering" if case.get("numbering") == "row" else ""))
     xc, yc = x.mean(), y.mean()
@@ -301,6 +315,17 @@ def run_case(case, ctx):
     # ---------------- ADMT -----------------
     psi_c = list(case["psi"])
     an = case["anisotropy"]
+    p_field = None
+    if case.get("an_field"):
+        # one anisotropy factor per voxel (the implementation broadcasts it): D_perp = 1/anisotropy linear in (x, y), within (0, 1]
+        a0, a1, a2 = case["an_field"]
+        u_, v_ = (x - xc) / Lx, (y - yc) / Ly
+        p_field = a0 + a1 * u_ + a2 * v_
+        if p_field.min() <= 1e-3 or p_field.max() > 1.0:
+            ctx.skip("per-voxel anisotropy field leaves (0, 1]")
+            return
+        an = 1.0 / p_field
+        ctx.mon("anisotropy_per_voxel")
     PS = _poly(psi_c, x, y, xc, yc, Lx, Ly)
     psc = float(case.get("psi_scale", 1.0))
     if psc != 1.0:
@@ -315,7 +340,10 @@ def run_case(case, ctx):
     if case.get("opdict_order"):
         ops = {names[k]: ops[names[k]] for k in case["opdict_order"]}
         ctx.mon("opdict_reordered")
+    snap = (x.copy(), PS["f"].copy(), {k: v.copy() for k, v in ops.items()})
     L = calculate_admt(x, ops, PS["f"], dx, dy, anisotropy=an)
+    ctx.check(np.array_equal(x, snap[0]) and np.array_equal(PS["f"], snap[1]) and all(np.array_equal(ops[k], snap[2][k]) for k in ops),
+              "inputs-modified:calculate_admt", "calculate_admt modified the caller's radii, flux values or operators", monitor="inputs_untouched")
     ok = ctx.check(L.shape == (n, n) and bool(np.all(np.isfinite(L))), "admt:non-finite",
                    "calculate_admt returned a non-finite entry or wrong shape", monitor="admt_finite")
     if not ok:
@@ -336,7 +364,7 @@ def run_case(case, ctx):
     # conditioning of the coefficient algebra: second differences of psi relative to its gradient
     curv = max(np.abs(ops["Dxx"] @ PS["f"]).max(), np.abs(ops["Dyy"] @ PS["f"]).max(), np.abs(ops["Dxy"] @ PS["f"]).max())
     cond = 1.0 + (curv * max(dx, dy) / dgrad.min()) + (curv / dgrad.min()) ** 2 * 0
-    if float(an) == 1.0:
+    if p_field is None and float(an) == 1.0:
         Lref = sq * (ops["Dxx"] + ops["Dyy"] + np.diag(1.0 / x) @ ops["Dx"])
         for fv, lab in ((frand, "random"), (F["f"], "quadratic")):
             scale_rows = (np.abs(L) @ np.abs(fv)) + (np.abs(Lref) @ np.abs(fv)) + sq * (curv / dgrad.min()) * (np.abs(ops["Dx"]) + np.abs(ops["Dy"])) @ np.abs(fv)
@@ -356,7 +384,8 @@ def run_case(case, ctx):
     if case["psi_kind"] in ("linear", "quadratic"):
         inner = (ix >= 2) & (ix <= nx - 3) & (iy >= 2) & (iy <= ny - 3)
         if inner.any():
-            p = 1.0 / float(an)
+            p = 1.0 / float(an) if p_field is None else p_field
+            p_x, p_y = (0.0, 0.0) if p_field is None else (case["an_field"][1] / Lx, case["an_field"][2] / Ly)
             q = 1.0
             px, py, pxx, pxy, pyy = PS["fx"], PS["fy"], PS["fxx"], PS["fxy"], PS["fyy"]
             N = px ** 2 + py ** 2
@@ -365,10 +394,10 @@ def run_case(case, ctx):
             Axx = p * px ** 2 + q * py ** 2
             Ayy = p * py ** 2 + q * px ** 2
             Axy = (p - q) * px * py
-            Axx_x = 2 * p * px * pxx + 2 * q * py * pxy
-            Ayy_y = 2 * p * py * pyy + 2 * q * px * pxy
-            Axy_x = (p - q) * (pxx * py + px * pxy)
-            Axy_y = (p - q) * (pxy * py + px * pyy)
+            Axx_x = 2 * p * px * pxx + 2 * q * py * pxy + p_x * px ** 2
+            Ayy_y = 2 * p * py * pyy + 2 * q * px * pxy + p_y * py ** 2
+            Axy_x = (p - q) * (pxx * py + px * pxy) + p_x * px * py
+            Axy_y = (p - q) * (pxy * py + px * pyy) + p_y * px * py
             Dxx = Axx / N
             Dyy = Ayy / N
             Dxy = Axy / N
@@ -395,5 +424,5 @@ def run_case(case, ctx):
                 ctx.viol("admt:analytic-operator-mismatch",
                          "ADMT operator applied to a quadratic field differs from the analytic anisotropic diffusion operator in an interior cell "
                          "(quadratic flux map: every discrete ingredient is exact there)",
-                         cell=k, got=float(got[k]), want=float(want[k]), tol=float(tol), anisotropy=an,
+                         cell=k, got=float(got[k]), want=float(want[k]), tol=float(tol), anisotropy=(an if p_field is None else "per-voxel"),
                          rel=float(abs(got[k] - want[k]) / (abs(want[k]) + 1e-300)))
